@@ -268,7 +268,9 @@ EXTRA_TEXT = {
     'C04': " (OFFS) Symbolic evaluation of UTMUPS::Forward/Reverse: the false easting/northing entries added after projecting are "
            "the ones subtracted before unprojecting, indexed alike by (projection, hemisphere). (H2) Scale homogeneity: x, y and k returned by TransverseMercator/PolarStereographic::Forward have degree 1 in "
            "the scale k0 on every path, gamma degree 0; Reverse returns k of degree 1 and angles of degree 0.",
-    'C06': " (H2) Scale homogeneity of TransverseMercator and TransverseMercatorExact Forward/Reverse: x, y, k of degree 1 in "
+    'C06': " (TMC) On every path of TransverseMercator::Forward/Reverse the complex Clenshaw accumulators equal zeta +- sum "
+           "coeff[j] sin(2j zeta) and 1 +- sum 2j coeff[j] cos(2j zeta) (symbolic evaluation with std::complex over "
+           "polynomials, order 6 unrolled), and x, y are a1 k0 times their parts with the hemisphere signs. (H2) Scale homogeneity of TransverseMercator and TransverseMercatorExact Forward/Reverse: x, y, k of degree 1 in "
            "k0 and gamma, lat, lon of degree 0 on every path (a scale applied in one branch only is a mixed degree).",
     'C11': " (H2) Scale homogeneity of the outputs of PolarStereographic and LambertConformalConic Forward/Reverse. (SYMM) "
            "symmetry of the divided-difference helpers of LambertConformalConic and AlbersEqualArea. (ECONST) derived ellipsoid "
